@@ -424,8 +424,14 @@ def _handle_fn_body(body: list[ast.stmt], ctx: Context) -> sympy.Expr | None:
                     ctx.modules[name] = el
                 else:
                     _LOGGER.debug("Skipping import %s", node)
-        else:
+        elif isinstance(node, (ast.Expr, ast.Pass)):
+            # docstrings and bare expressions don't change any value
             _LOGGER.debug("Skipping node of type %s", type(node))
+        else:
+            # augmented assignments, loops, ... change values: skipping them
+            # silently would yield a wrong expression
+            msg = f"Statement type {type(node).__name__} not implemented"
+            raise NotImplementedError(msg)
 
     # If we have pieces to combine into a Piecewise
     if pieces:
